@@ -107,7 +107,7 @@ def main():
         "hooks": {
             "guard": "--cfg redb_verif",
             "enable": "RUSTFLAGS='--cfg redb_verif' (set in /verif/harness/.cargo/config.toml); the harness depends on /repo by path so every check rebuilds from the current working tree",
-            "baseline_off_cmd": "cd /repo && cargo test --offline --no-fail-fast -p redb@4.2.0 -p redb-derive -p redb-derive-rename-test",
+            "baseline_off_cmd": "cd /repo && cargo test --offline --no-fail-fast -p redb@4.2.0 --features experimental_cursor && cargo test --offline --no-fail-fast -p redb-derive -p redb-derive-rename-test",
             "source_commits": hook_commits(),
             "add_only": True,
         },
